@@ -85,6 +85,7 @@ def run_history(case):
                     r["effect"] = {"content differs in": [k for k in O.KEYS if exp[k] != after[k]]}
             exp = c03spec.expected_outcome(before, op) if op[0] not in ("q", "fork") else "ok"
             s["out"] = r["out"] if exp is None else exp
+            fresh = None
             try:
                 fresh = O.fresh_model(after)
                 s["ids"] = O.ids_of(fresh)
@@ -93,6 +94,19 @@ def run_history(case):
             except Exception as e:  # noqa: BLE001
                 s["ids"] = {"content cannot be rebuilt": type(e).__name__}
                 s["ans"] = {"content cannot be rebuilt": type(e).__name__} if op[0] == "q" else None
+            if op[0] == "q":
+                # the real freshly built model's answer, also under its own key: the Lean model's `freshAnswer` is
+                # compared with it (M["fresh"] vs R["fresh"], a correspondence check of the theorems' right-hand side)
+                r["fresh"] = s["ans"]
+                s["fresh"] = s["ans"]
+            if i == len(ops) - 1:
+                # the freshly built real model itself (ids, key order of the seven containers): the counterpart of the
+                # Lean model's `freshState`
+                try:
+                    r["rebuilt"] = {"ids": O.ids_of(fresh), "keys": O.keylists(fresh)}
+                except Exception as e:  # noqa: BLE001
+                    r["rebuilt"] = {"content cannot be rebuilt": type(e).__name__}
+                s["rebuilt"] = r["rebuilt"]
             if r["changed"] and op[0] in O.PLURAL and _prefix_applied(before, op, after):
                 r["prefix"] = True
                 s["prefix"] = True
@@ -139,21 +153,32 @@ def model_histories(cases):
         start = c.get("check_from", 0)
         obs = [None] * start
         for o in r:
-            ans = o.get("ans")
-            if ans is not None:
-                ans = canon_model_ans(ans)
-                q = c["ops"][len(obs)]
-                if "ok" in ans and q[1] == "stoich":
-                    from vlib import content as C
-
-                    ans = {"ok": C.canon_stoich({cp: dict(row) for cp, row in ans["ok"]})}
-                elif "ok" in ans and q[1] == "stoichvar":
-                    ans = {"ok": sorted(ans["ok"])}
-                elif "ok" in ans and q[1] == "names" and q[2] == "unused":
-                    ans = {"ok": sorted(ans["ok"])}
-            obs.append({"out": o["out"], "ids": sorted(o["ids"]), "keys": o["keys"], "ans": ans})
+            q = c["ops"][len(obs)]
+            ob = {"out": o["out"], "ids": sorted(o["ids"]), "keys": o["keys"], "ans": _canon_q(o.get("ans"), q)}
+            if q[0] == "q":
+                # what `freshAnswer` (the right-hand side of C03_fresh_equiv) says; compared with the real fresh model
+                ob["fresh"] = _canon_q(o.get("fresh"), q)
+            if "rebuilt" in o:
+                # the Lean model built from scratch by `rebuild` (C03_refines_fresh); compared with the real fresh model
+                ob["rebuilt"] = {"ids": sorted(o["rebuilt"]["ids"]), "keys": o["rebuilt"]["keys"]}
+            obs.append(ob)
         out.append(obs)
     return out
+
+
+def _canon_q(ans, q):
+    if ans is None:
+        return None
+    ans = canon_model_ans(ans)
+    if "ok" in ans and q[1] == "stoich":
+        from vlib import content as C
+
+        ans = {"ok": C.canon_stoich({cp: dict(row) for cp, row in ans["ok"]})}
+    elif "ok" in ans and q[1] == "stoichvar":
+        ans = {"ok": sorted(ans["ok"])}
+    elif "ok" in ans and q[1] == "names" and q[2] == "unused":
+        ans = {"ok": sorted(ans["ok"])}
+    return ans
 
 
 def canon_model_ans(a):
